@@ -92,6 +92,17 @@ def cases(tier, seed):
                 for mem in ("null", "00" * max(size, 1)):
                     cs.append(Case("setup-%d" % n, ["bb.set %s %d %d %d" % (mem, size, used, off), "bb.atmost 9"], ("setup",)))
                     n += 1
+    # set-up arguments at the top of the size_t range (an error code handed on as a size): refused like any other
+    # used > size or offset > used
+    BIG = [2 ** 64 - 1, 2 ** 64 - 2, 2 ** 64 - 3, 2 ** 64 - 4, 2 ** 63, 2 ** 63 - 1, 2 ** 32]
+    for size in (1, 3, 4):
+        mem = "".join("%02x" % (0xc0 + i) for i in range(size))
+        for used in list(range(0, size + 1)) + BIG:
+            for off in list(range(0, 2)) + BIG + [2 ** 64 - k for k in range(1, size + 2)]:
+                if used <= size and off <= used:
+                    continue
+                cs.append(Case("setup-big-%d" % n, ["bb.set %s %d %d %d" % (mem, size, used, off), "bb.atmost 9", "bb.add 01"], ("setup", "huge-arguments")))
+                n += 1
     cs.append(Case("null-rewind", ["bb.null", "bb.rewind"], ("setup",)))
     # the convenience set-ups: an empty buffer over the memory / the memory as a completely filled buffer
     for size in range(0, 4):
